@@ -164,6 +164,10 @@ def crash_stage(c):
   tmp = tempfile.mkdtemp(prefix='vverif_c05_')
   try:
     cfg = dict(svccheck.FIXED, esRecycle=True)
+    # which variant of SuggestTrials' treatment of an abandoned operation the current tree has
+    # (c05_same_worker_resumed / c05_same_worker_wedge_counterexample)
+    cfg['resumesAbandonedOp'], probe = svccheck.probe_resume('sqlmem')
+    c.flags['resumesAbandonedOp'] = cfg['resumesAbandonedOp']
     n_prefix = len(PREFIXES) if c.tier == 'thorough' else 2
     for pi in range(n_prefix):
       prefix = PREFIXES[pi]
